@@ -278,7 +278,7 @@ CTOR_NAMES = ("TypedCroppedImage::<'a, V>::new", "TypedCroppedImage::<'a, V>::fr
               "TypedCroppedImageMut::<'a, V>::new", "TypedCroppedImageMut::<'a, V>::from_ref")
 
 
-def unwraps(rep, prog, rule):
+def unwraps(rep, prog, rule, only=None, floor=20):
     rep.rule(rule, "every unwrap/expect of the geometry layer: the receiver's failure condition "
              "is refuted by guards/intervals (DISCHARGED), is satisfiable for caller-controlled "
              "or object-state values with no guard (VIOLATION: e.g. check_crop_box rejects "
@@ -288,7 +288,7 @@ def unwraps(rep, prog, rule):
     n = 0
     from .ranges import in_scope
     for f in sorted(prog.fns.values(), key=lambda x: x.id):
-        if not in_scope(f):
+        if not in_scope(f) or (only and not only(f)):
             continue
         sites = [c for c in f.calls() if c.name.endswith("::unwrap") or c.name.endswith("::expect")]
         if not sites:
@@ -349,7 +349,7 @@ def unwraps(rep, prog, rule):
                             "is_supported(P::pixel_type()): panics for pixel types without alpha")
                 continue
             rep.unk(rule, key, c.at, "receiver %s" % fmt(recv)[:100])
-    rep.floor(rule, "unwrap sites in scope", n, 20)
+    rep.floor(rule, "unwrap sites in scope", n, floor)
 
 
 def _norm_getters(e):
